@@ -423,12 +423,32 @@ def judge_cut_and_merge(case):
     for (i, j), h, s in zip(pairs, case["h"], case["S"]):
         H[i, j] = H[j, i] = h
         S[i, j] = S[j, i] = s
-    lower, upper = case["lower"], case["upper"]
     try:
         with quiet():
             sq = SQRA(E, V, csr_array(H), csr_array(S))
             Q = sq.get_rate_matrix(D=1.0, T=T)
             Q0 = dense_of(Q).copy()
+    except Exception as e:
+        return [f"exception {type(e).__name__}: {e}"], None
+    # a history of calls on ONE model object: every call is judged on its own (the reduction is a function of the matrix
+    # and the limits passed in, not of what the object was asked before)
+    history = [[case["lower"], case["upper"]]] + [list(x) for x in case.get("then", [])]
+    info = {}
+    for step, (lower, upper) in enumerate(history):
+        msgs, one = _judge_one_cut_and_merge(sq, Q.copy(), Q0, E, pairs, n, T, lower, upper)
+        for k, v in (one or {}).items():
+            info[k] = bool(info.get(k)) or bool(v)
+        if msgs:
+            if step:
+                msgs = [f"call {step + 1} on the same SQRA object (limits so far {history[:step + 1]}): " + m for m in msgs]
+            return msgs, info
+    return [], info
+
+
+def _judge_one_cut_and_merge(sq, Q, Q0, E, pairs, n, T, lower, upper):
+    from scipy.constants import k as kB, N_A
+    try:
+        with quiet():
             out, il = sq.cut_and_merge(Q, T=T, lower_limit=lower, upper_limit=upper)
     except Exception as e:
         return [f"exception {type(e).__name__}: {e}"], None
@@ -437,10 +457,6 @@ def judge_cut_and_merge(case):
     if il is None:
         if A.shape != (n, n) or not np.array_equal(A, Q0):
             return [f"no index list returned although the matrix changed (shape {A.shape}, lower={lower}, upper={upper})"], info
-        if lower is not None or upper is not None:
-            # an unchanged matrix without index list is within the contract only if nothing had to be merged or cut
-            pass
-        model_groups = None
     # model of what must happen
     model = Model(Q0)
     if lower is not None:
@@ -493,6 +509,10 @@ def _cam_shard(arg):
             return draw(st.sampled_from(cuts))
         case["lower"] = between(dvals, 1.0, 1.0) if draw(st.booleans()) else None
         case["upper"] = between(evals, 1.0, 1.0) if draw(st.booleans()) else None
+        # further calls with other limits on the same SQRA object
+        case["then"] = [[between(dvals, 1.0, 1.0) if draw(st.booleans()) else None,
+                         between(evals, 1.0, 1.0) if draw(st.booleans()) else None]
+                        for _ in range(draw(st.sampled_from([0, 0, 1, 2, 3])))]
         return case
 
     def builder(res, fail):
@@ -503,6 +523,8 @@ def _cam_shard(arg):
             cl = ["cut_and_merge", f"lower={'set' if case['lower'] is not None else 'none'}",
                   f"upper={'set' if case['upper'] is not None else 'none'}"]
             cl += [k for k in ("merged", "cut") if info.get(k)]
+            if case.get("then"):
+                cl.append("several_calls_on_one_object")
             if info.get("merged") is False and info.get("cut") is False:
                 cl.append("nothing_merged_nothing_cut")
             res.case(sample=case, nontrivial=bool(info.get("merged") or info.get("cut")), key=case, classes=cl)
@@ -541,7 +563,8 @@ def run(tier):
             f"given as join lists or any deletion subset, two matrix kinds; (2) Hypothesis state machine: n in 2..9 (occasionally 40, 130, 257, 300), "
             f"merge rules with 1..3 join lists of 1..4 ids (repeats, overlaps, merged and deleted members), delete rules, "
             f"dense and csr in lock-step, up to {steps} steps; (3) SQRA.cut_and_merge on generated energies/adjacency with "
-            f"all four limit combinations, limits placed between the occurring values. Non-trivial history = a merge after a "
+            f"all four limit combinations, limits placed between the occurring values, followed (40 %) by 1..3 further calls "
+            f"with other limits on the same SQRA object, each judged on its own. Non-trivial history = a merge after a "
             f"delete or a merge naming an already merged cell (cut_and_merge: something merged or cut); distinct = distinct "
             f"(matrix, operation sequence).")
     return res, rule, {"extra": {"exhaustive_part_evaluations": n_exhaustive,
